@@ -3,7 +3,7 @@
 P=$1; shift
 cd /repo || exit 2
 git diff --quiet || { echo "/repo has uncommitted changes"; exit 2; }
-git apply "$P" 2>/dev/null || git apply --3way "$P" || { echo "patch does not apply"; git checkout -- . ; exit 2; }
+git apply "$P" 2>/dev/null || git apply --3way "$P" || { echo "patch does not apply"; git reset -q --hard HEAD; exit 2; }
 git reset -q
 for id in "$@"; do
   out=$(cd /verif && bin/check $id 2>&1); rc=$?
